@@ -31,8 +31,11 @@ Expect(r) ==
   ELSE {}
 \* the node was sent at most so many pay commands in the run (C05: a lost reply is no licence to pay again)
 PayCount(r) == IF "pay_calls" \in DOMAIN r /\ r.pay_calls > r.pay_calls_max THEN {"PaidAgain"} ELSE {}
+\* a measured quantity stays within what the scenario allows (C20: the route delay granted one poll interval after the
+\* chain grew unnoticed shows the height in use; a stale height grants more)
+Bound(r) == IF "bound" \in DOMAIN r /\ (r.bound.val < 0 \/ r.bound.val > r.bound.max) THEN {"OutOfBound"} ELSE {}
 Next == /\ l <= N /\ l' = l + 1
-        /\ LET b == Bad(Rec[l]) \cup Expect(Rec[l]) \cup PayCount(Rec[l]) IN b # {} => PrintT(<<"E2EVIOL", Rec[l].run, b>>)
+        /\ LET b == Bad(Rec[l]) \cup Expect(Rec[l]) \cup PayCount(Rec[l]) \cup Bound(Rec[l]) IN b # {} => PrintT(<<"E2EVIOL", Rec[l].run, b>>)
 Spec == Init /\ [][Next]_l
 Accepted == TLCGet("stats").diameter - 1 = N
 =============================================================================
